@@ -195,7 +195,9 @@ func opParse(req *sb.Req) *sb.Resp {
 	}
 	// The returned tree must be a usable value.
 	resp.TreeStr = clip(tree.Root().String(), 4000)
+	walkSeen = map[parse.Node]bool{}
 	nodes := walkTree(tree.Root(), 0, nil)
+	walkSeen = nil
 	if req.WantTree {
 		resp.Tree = nodes
 	}
@@ -217,9 +219,22 @@ func isNilNode(n parse.Node) bool {
 	return rv.Kind() == reflect.Ptr && rv.IsNil()
 }
 
+// walkSeen holds the nodes already listed: a block nested inside a block of an
+// embed body is reachable both through EmbedNode.Blocks and through the
+// enclosing block's body, and is one node.
+var walkSeen map[parse.Node]bool
+
 func walkTree(n parse.Node, depth int, out []sb.Node) []sb.Node {
 	if isNilNode(n) || depth > 20000 {
 		return out
+	}
+	if walkSeen != nil {
+		if _, isBlock := n.(*parse.BlockNode); isBlock {
+			if walkSeen[n] {
+				return out
+			}
+			walkSeen[n] = true
+		}
 	}
 	pos := n.Start()
 	nd := sb.Node{Kind: strings.TrimPrefix(fmt.Sprintf("%T", n), "*parse."), Line: pos.Line, Off: pos.Offset, Depth: depth}
